@@ -1,0 +1,58 @@
+//go:build verif
+
+// Contracts for the govc verifier (see /verif/DESIGN.md). Comment-only file.
+package checker
+
+//@ # ---------------------------------------------------------------- the conservation ledger itself (C01)
+//@ # deltaOf / volOf: what has been reported since the last reset, per coin: net change of holdings / of volume
+//@ spec deltaOf(c *Checker, coin types.CoinID) int = (coin in c.delta) ? c.delta[coin].val : 0
+//@ spec volOf(c *Checker, coin types.CoinID) int = ((coin in c.volumeDelta) && c.volumeDelta[coin] != nil) ? c.volumeDelta[coin].val : 0
+//@ spec wfChecker(c *Checker) bool = c != nil && c.delta != nil && c.volumeDelta != nil && c.delta != c.volumeDelta && (forall k types.CoinID :: (k in c.delta) ==> c.delta[k] != nil) && (forall k types.CoinID :: (k in c.volumeDelta) ==> c.volumeDelta[k] != nil) && (forall k1 types.CoinID, k2 types.CoinID :: k1 != k2 && (k1 in c.delta) && (k2 in c.delta) ==> c.delta[k1] != c.delta[k2]) && (forall k1 types.CoinID, k2 types.CoinID :: k1 != k2 && (k1 in c.volumeDelta) && (k2 in c.volumeDelta) ==> c.volumeDelta[k1] != c.volumeDelta[k2]) && (forall k1 types.CoinID, k2 types.CoinID :: (k1 in c.delta) && (k2 in c.volumeDelta) ==> c.delta[k1] != c.volumeDelta[k2])
+
+//@ func (*Checker).AddCoin
+//@   serves C01
+//@   requires wfChecker(c) && value != nil
+//@   requires live: forall k types.CoinID :: ((k in c.delta) ==> allocated(c.delta[k])) && ((k in c.volumeDelta) ==> allocated(c.volumeDelta[k]))
+//@   requires noalias: forall k types.CoinID :: c.delta[k] != value && c.volumeDelta[k] != value
+//@   ensures added: deltaOf(c, coin) == old(deltaOf(c, coin)) + old(value.val)
+//@   ensures others: forall k types.CoinID :: k != coin ==> deltaOf(c, k) == old(deltaOf(c, k))
+//@   ensures volumes: forall k types.CoinID :: volOf(c, k) == old(volOf(c, k))
+//@   ensures wf: wfChecker(c)
+//@   ensures live: forall k types.CoinID :: ((k in c.delta) ==> allocated(c.delta[k])) && ((k in c.volumeDelta) ==> allocated(c.volumeDelta[k]))
+
+//@ func (*Checker).AddCoinVolume
+//@   serves C01
+//@   requires wfChecker(c) && value != nil
+//@   requires live: forall k types.CoinID :: ((k in c.delta) ==> allocated(c.delta[k])) && ((k in c.volumeDelta) ==> allocated(c.volumeDelta[k]))
+//@   requires noalias: forall k types.CoinID :: c.delta[k] != value && c.volumeDelta[k] != value
+//@   ensures added: volOf(c, coin) == old(volOf(c, coin)) + old(value.val)
+//@   ensures others: forall k types.CoinID :: k != coin ==> volOf(c, k) == old(volOf(c, k))
+//@   ensures deltas: forall k types.CoinID :: deltaOf(c, k) == old(deltaOf(c, k))
+//@   ensures wf: wfChecker(c)
+//@   ensures live: forall k types.CoinID :: ((k in c.delta) ==> allocated(c.delta[k])) && ((k in c.volumeDelta) ==> allocated(c.volumeDelta[k]))
+
+//@ func (*Checker).Reset
+//@   serves C01
+//@   requires c != nil
+//@   ensures cleared: forall k types.CoinID :: deltaOf(c, k) == 0 && volOf(c, k) == 0
+//@   ensures wf: wfChecker(c)
+//@   ensures live: forall k types.CoinID :: ((k in c.delta) ==> allocated(c.delta[k])) && ((k in c.volumeDelta) ==> allocated(c.volumeDelta[k]))
+
+//@ # the comparison made before every commit: no error iff every coin with a recorded holdings change has the same
+//@ # recorded volume change (coins that only have a volume record are not compared - stated as uncovered)
+//@ func (*Checker).Check
+//@   serves C01
+//@   requires wfChecker(c)
+//@   requires live: forall k types.CoinID :: ((k in c.delta) ==> allocated(c.delta[k])) && ((k in c.volumeDelta) ==> allocated(c.volumeDelta[k]))
+//@   ensures balanced: result == nil <==> forall k types.CoinID :: (k in c.delta) ==> deltaOf(c, k) == volOf(c, k)
+//@   modifies nothing
+//@   loop 0 invariant sofar: forall k types.CoinID :: visited(k) ==> deltaOf(c, k) == volOf(c, k)
+
+//@ # closure over a block (pure arithmetic): the ledger starts at zero after the reset at commit; if every mutator moves
+//@ # the holdings H of a coin and the recorded holdings change together, and the volume V and the recorded volume change
+//@ # together (the "reported" clauses of the mutators), and Check found the two records equal, then H - V after the
+//@ # block is what it was before it. For the base coin V is the emission counter.
+//@ lemma conservationStep(h0 int, v0 int, h1 int, v1 int, d int, vd int)
+//@   serves C01
+//@   requires h1 - h0 == d && v1 - v0 == vd && d == vd
+//@   ensures kept: h1 - v1 == h0 - v0
